@@ -161,9 +161,45 @@ def native_oracle(witness, work, search_seed=None):
                 if res['status'] == 'violated':
                     res['found_by'] = 'seeded native search (seed %d, try %d)' % (search_seed, i)
                     return res
-        return dict(status='holds', detail='oracle holds on the witness%s' % (' and on 150 random requests' if search_seed is not None else ''))
+        res = history_check(work, search_seed or 1)
+        if res['status'] == 'violated':
+            return res
+        return dict(status='holds', detail='oracle holds on the witness%s; answers independent of earlier queries and of a second world alive in the process' % (' and on 150 random requests' if search_seed is not None else ''))
     finally:
         q.close()
+
+
+def history_check(work, seed):
+    """answers do not depend on earlier queries nor on other worlds alive in the process: a world queried in a fresh
+    process must answer exactly like the same world queried after / interleaved with queries on another world"""
+    import oracle
+    wa = WORLD % dict(extra='')
+    wb = WORLD % dict(extra='"potential mantle temperature":1450, "specific heat":1000,')
+    rnd = random.Random(seed)
+    queries = []
+    for i in range(40):
+        d = rnd.choice([0.0, 10e3, 100e3, 300e3, 700e3, 700e3, 1200e3])
+        x, y = rnd.uniform(-2e6, 2e6), rnd.uniform(-2e6, 2e6)
+        req = rnd.choice([[[1, 0, 0]], [[1, 0, 0], [2, 0, 0]], [[5, 0, 0], [1, 0, 0], [4, 0, 0]], [[3, 0, 2], [1, 0, 0]]])
+        queries.append('p3 %r %r %r %r %s' % (x, y, 3000e3 - d, d, oracle.props_arg(req)))
+    fresh = oracle.Q(wb, work, name='fresh')
+    both = oracle.Q(wa, work, name='both', more_worlds=(wb,))
+    try:
+        if fresh.construct_error or both.construct_error:
+            return dict(status='error', detail=str(fresh.construct_error or both.construct_error))
+        for qy in queries:
+            ref = fresh.ask(qy)
+            both.ask('use 0')
+            both.ask(qy)                       # the same query on the other world first
+            both.ask('use 1')
+            got = both.ask(qy)
+            if ref[0] == 'OK' and got[0] == 'OK' and [oracle.bits(v) for v in ref[1]] != [oracle.bits(v) for v in got[1]]:
+                return dict(status='violated', detail='world B answers %s to "%s" in a fresh process but %s directly after the same query on world A alive in the same process'
+                                                      % ([float.fromhex(v) for v in ref[1]], qy, [float.fromhex(v) for v in got[1]]))
+        return dict(status='holds')
+    finally:
+        fresh.close()
+        both.close()
 
 
 def witness_from_trace(unit, failure, seed):
